@@ -77,6 +77,9 @@ func copyAddressedByFlag(r *core.Run) {
 		}
 		return st
 	}
+	// beforeFlagTest is set by judge: the instruction under judgement precedes the test of
+	// the replica flag ("kind = PRIMARY; if Replica { kind = BACKUP }")
+	var beforeFlagTest func() bool
 	var determined func(v ssa.Value, conds []core.Cond, depth int) (bool, string)
 	determined = func(v ssa.Value, conds []core.Cond, depth int) (bool, string) {
 		v = canonVal(v)
@@ -99,6 +102,9 @@ func copyAddressedByFlag(r *core.Run) {
 		if k == fs {
 			return true, "chosen on the matching edge of the replica flag"
 		}
+		if k == -1 && fs == 0 && beforeFlagTest != nil && beforeFlagTest() {
+			return true, "the primary copy is the default, set before the replica flag is tested and overridden on its true edge"
+		}
 		if k == 1 {
 			return false, "the backup copy is chosen although the request's replica flag is not known to be set"
 		}
@@ -107,6 +113,30 @@ func copyAddressedByFlag(r *core.Run) {
 	cnt := 0
 	judge := func(fn *core.Fn, what string, v ssa.Value, at ssa.Instruction) {
 		cnt++
+		beforeFlagTest = func() bool {
+			for _, b := range at.Parent().Blocks {
+				if len(b.Instrs) == 0 {
+					continue
+				}
+				ifi, ok := b.Instrs[len(b.Instrs)-1].(*ssa.If)
+				if !ok {
+					continue
+				}
+				cv, _ := core.StripNot(ifi.Cond)
+				if core.LastField(cv) != "Replica" {
+					continue
+				}
+				if core.Dominates(at, ifi) {
+					// and the true edge stores the backup kind
+					for _, in := range b.Succs[0].Instrs {
+						if st, isSt := in.(*ssa.Store); isSt && classify(st.Val) == 1 {
+							return true
+						}
+					}
+				}
+			}
+			return false
+		}
 		ok, why := determined(v, core.Conditions(at.Block()), 0)
 		r.Check(ok, rule, fn.Name+" "+what, site(r, instrPos(at)), why,
 			why+": one physical copy can answer for both the primary and the replica read (counted twice towards ReadQuorum), or a replica operation touches the primary copy")
